@@ -3,11 +3,11 @@ CONSTANTS
   N = 4
   GroupNames <- GNs
   Groups <- G4
-  Obj <- Obj4
-  HasCancel = TRUE
-  CondSizes = {2}
-  SeqSizes = {2}
-  MaxOps = 5
+  Obj <- Obj4I
+  HasCancel = FALSE
+  CondSizes = {}
+  SeqSizes = {}
+  MaxOps = 6
 INVARIANT OwnedIffMocked
 PROPERTY ResetExact
 VIEW View
